@@ -114,7 +114,19 @@ def gen_case(rng, s):
         decls.append("$u: %s" % gen.type_sdl(t))      # declared, never provided
         sels.append("uvar: %s(x: $u)" % fn)
     q = "query (%s) { %s }" % (", ".join(decls), " ".join(sels))
-    return {"query": q, "variables": dict(variables), "group": group, "field": fn}
+    # the same document again with OTHER runtime values (same text: the second execution goes through the parse cache)
+    alt = dict(variables)
+    a2 = gen.gen_literal(rng, s, t, good=True)
+    if nonnull and a2 == ("null",):
+        a2 = gen.gen_literal(rng, s, t[1], good=True, nullable=False)
+    alt["a"] = json_of_lit(a2)
+    if "w" in alt:
+        w2 = gen.gen_literal(rng, s, nested[1], good=True)
+        if nested[1][0] == "nonnull" and w2 == ("null",):
+            w2 = gen.gen_literal(rng, s, nested[1][1], good=True, nullable=False)
+        alt["w"] = json_of_lit(w2)
+    return {"query": q, "variables": dict(variables), "group": group, "field": fn, "decls": decls, "sels": sels,
+            "alt_variables": alt}
 
 
 BAD_VALUES = {"Int": 3, "Float": 2.5, "String": "three", "Boolean": True, "ID": "id9"}
@@ -170,6 +182,80 @@ async def run_schema(s, cases, schema_name):
         except Exception as e:  # pylint: disable=broad-except
             resp = {"raised": repr(e)}
         out.append({"response": resp, "args": dict(record)})
+    return out
+
+
+def directive_query(c):
+    """the request of case c with every argument moved from the probe field to a FIELD directive on `ping`"""
+    fn = c["field"]
+    out = []
+    for sel in c["sels"]:
+        alias, rest = sel.split(": ", 1)
+        assert rest.startswith(fn)
+        out.append("%s: ping @p_%s%s" % (alias, fn, rest[len(fn):]))
+    return "query (%s) { %s }" % (", ".join(c["decls"]), " ".join(out))
+
+
+async def run_directive_positions(s, cases, schema_name):
+    """DIRECTIVE positions: for every probe field `f(x: T = d)` a directive `@p_f(x: T = d) on FIELD` whose
+    on_field_execution hook records the argument dictionary it receives.  Each case is executed as written
+    (arguments at the field) and with the arguments moved to the directive, twice: with its variables and again --
+    same text, so through the parse cache -- with other runtime values.  Returns per case and per run the two
+    observations per alias."""
+    from tartiflette import create_engine, Resolver, Directive
+    frecord, drecord = {}, {}
+
+    def mk(fname):
+        @Resolver("Query." + fname, schema_name=schema_name)
+        async def r(parent, args, ctx, info):
+            frecord[info.path.as_list()[0]] = args
+            return 1
+
+        @Directive("p_" + fname, schema_name=schema_name)
+        class P:
+            async def on_field_execution(self, directive_args, next_resolver, parent_result, args, ctx, info):
+                drecord[info.path.as_list()[0]] = directive_args
+                return await next_resolver(parent_result, args, ctx, info)
+        return r, P
+
+    dirs = []
+    for f in s["types"]["Query"]["fields"]:
+        mk(f["name"])
+        a = f["args"][0]
+        dirs.append("directive @p_%s(x: %s%s) on FIELD" % (
+            f["name"], gen.type_sdl(a["type"]), " = " + gen.lit_sdl(a["default"]) if a.get("default") is not None else ""))
+
+    @Resolver("Query.ping", schema_name=schema_name)
+    async def ping(parent, args, ctx, info):
+        return 1
+
+    sdl = gen.schema_sdl(s) + "\n".join(dirs) + "\nextend type Query { ping: Int }\n"
+    engine = await create_engine(sdl, schema_name=schema_name)
+
+    def view(resp, rec, aliases):
+        if not isinstance(resp, dict) or "raised" in resp or resp.get("data") is None:
+            return {"refused": repr(resp)[:300]}
+        failed = {(e.get("path") or ["?"])[0] for e in resp.get("errors") or []}
+        return {a: ("called " + canon(rec[a])) if a in rec else ("failed" if a in failed else "nocall") for a in aliases}
+
+    out = []
+    for c in cases:
+        aliases = [sel.split(": ", 1)[0] for sel in c["sels"]]
+        dq = directive_query(c)
+        runs = []
+        for variables in (c["variables"], c["alt_variables"]):
+            frecord.clear(); drecord.clear()
+            try:
+                fr = await engine.execute(c["query"], variables=variables)
+            except Exception as e:  # pylint: disable=broad-except
+                fr = {"raised": repr(e)}
+            try:
+                dr = await engine.execute(dq, variables=variables)
+            except Exception as e:  # pylint: disable=broad-except
+                dr = {"raised": repr(e)}
+            runs.append({"variables": variables, "field": view(fr, frecord, aliases), "directive": view(dr, drecord, aliases),
+                         "directive_response": dr})
+        out.append({"directive_query": dq, "runs": runs})
     return out
 
 
@@ -263,7 +349,9 @@ def main(tier_, replay=None):
     rng = random.Random(seed * 104729 + 5)
     n_schemas, n_cases = (4, 100) if tier_ == "quick" else (20, 400)
     files, meta = [], []
-    total = spell_pairs = 0
+    total = spell_pairs = spellings = 0
+    distinct_requests = set()
+    directive_runs, directive_disagreements = 0, []
     disagreements = []
     refused_requests = 0
     ill_total, ill_shapes = 0, {}
@@ -281,6 +369,21 @@ def main(tier_, replay=None):
                                           c["variable_type"], c["declared"], c["illtyped"])))
         asts = [gen.parse_query(c["query"]) for c in cases]
         runs = asyncio.run(run_schema(s, cases, fresh_schema_name("c05")))
+        # DIRECTIVE positions deliver what FIELD positions deliver: same request, arguments moved to a directive; then the
+        # same two texts again with other runtime values
+        druns = asyncio.run(run_directive_positions(s, cases, fresh_schema_name("c05d")))
+        for c, d in zip(cases, druns):
+            for ri, run in enumerate(d["runs"]):
+                directive_runs += 1
+                if "refused" in run["field"] or "refused" in run["directive"]:
+                    if ("refused" in run["field"]) != ("refused" in run["directive"]):
+                        directive_disagreements.append((s, c, d, run, "one of the two requests was refused as a whole"))
+                    continue
+                bad = [a for a in run["field"] if run["field"][a] != run["directive"].get(a)]
+                if bad:
+                    directive_disagreements.append((s, c, d, run, "%s execution (%s): the directive hook and the resolver disagree "
+                                                    "at %s" % ("first" if ri == 0 else "second", "the case's variables" if ri == 0 else
+                                                               "same texts, other runtime values", bad)))
         # spellings of the same value must agree
         for c, a, r in zip(cases, asts, runs):
             total += 1
@@ -289,6 +392,8 @@ def main(tier_, replay=None):
                 refused_requests += 1
                 disagreements.append((s, c, r, "request refused although every spelling is valid"))
                 continue
+            spellings += len(obs)
+            pairs_before = spell_pairs
             vals = {k: json.dumps(obs[k][1], sort_keys=True) for k in c["group"] if k in obs}
             spell_pairs += max(0, len(vals) - 1)
             if len(set(vals.values())) > 1:
@@ -302,6 +407,8 @@ def main(tier_, replay=None):
                 spell_pairs += 1
                 if obs["omitted"][1] != obs["uvar"][1]:
                     disagreements.append((s, c, r, "omitted vs unprovided variable: %s / %s" % (obs["omitted"][1], obs["uvar"][1])))
+            if "nqabsent" in obs and "omitted" in obs or spell_pairs > pairs_before:
+                distinct_requests.add((c["query"], json.dumps(c["variables"], sort_keys=True)))
             # a null runtime value for a non-null argument fails that field (it never falls back to the schema default);
             # a declared but unprovided variable leaves the argument to its default
             for k in ("nznull", "nydefnull"):
@@ -334,7 +441,13 @@ def main(tier_, replay=None):
         rep.violation({"property": "C05", "kind": why, "sdl": gen.schema_sdl(s), "query": c["query"],
                        "variables": c["variables"], "args_received": {k: canon(v) for k, v in r["args"].items()},
                        "response": r["response"]})
-    if not disagreements:
+    for s, c, d, run, why in directive_disagreements[:5]:
+        rep.violation({"property": "C05", "kind": "directive position: " + why, "sdl": gen.schema_sdl(s),
+                       "field_query": c["query"], "directive_query": d["directive_query"], "variables": run["variables"],
+                       "first_execution_variables": c["variables"],
+                       "resolver_received": run["field"], "directive_hook_received": run["directive"],
+                       "directive_response": repr(run["directive_response"])[:1500]})
+    if not disagreements and not directive_disagreements:
         if not proofs_ok:
             rep.violation({"property": "C05", "what": "proof obligation no longer checks",
                            "file": b.get("failed_file"), "theorem": b.get("failed_lemma"), "gate": gate,
@@ -357,9 +470,13 @@ def main(tier_, replay=None):
         "trusted_base": common.TRUSTED_BASE + [
             "Print Assumptions: %d theorems closed; axioms: %s" % (assum["closed"], assum["axioms"] or "none")],
         "theorems": [n for n in names if n.startswith("C05_")],
-        "evaluations": total, "distinct_nontrivial": spell_pairs,
-        "rule": "one value per request spelled as literal / variable / nested variable / variable default / "
-                "schema default / null / omitted; non-trivial = pairs of spellings compared; plus documents using a "
+        "evaluations": total + ill_total, "distinct_nontrivial": len(distinct_requests),
+        "spellings_executed": spellings, "spelling_pairs_compared": spell_pairs,
+        "directive_position_runs": directive_runs, "directive_position_disagreements": len(directive_disagreements),
+        "rule": "evaluations = requests run through the engine and the models plus ill-typed documents; non-trivial = "
+                "distinct requests (query text + variables) in which at least two spellings of one value were compared; "
+                "one value per request spelled as literal / variable / nested variable / variable default / "
+                "schema default / null / omitted; plus documents using a "
                 "variable of another named type directly at the argument (in the operation, through fragments, "
                 "through a fragment shared with a well-typed operation): must be refused, resolver never called",
         "traces_validated_against_impl": total - refused_requests,
@@ -367,5 +484,6 @@ def main(tier_, replay=None):
         "illtyped_variable_documents": ill_total, "illtyped_shapes": ill_shapes,
         "samples": [{"query": c["query"], "variables": c["variables"]} for c in meta[0][1][:4]] if meta else [],
     }, rep.wall(), violations=len(rep.violations),
-        assumptions_=["directive-argument positions share coerce_arguments with field positions (same code path)"])
+        assumptions_=["directive positions are tied to field positions on the engine (same request with the arguments moved to a "
+                      "FIELD directive, executed twice with different runtime values); the Coq model covers the field position"])
     return rep.finish()
